@@ -624,3 +624,37 @@ def main(ctx):
                             block_forms=BLOCK_FORMS, window_length=3,
                             windows="cyclic (i,i+1,i+2) and (i,i+n/3,i+2n/3) over each block",
                             variants=[list(map(str, v)) for v in VARIANTS]))
+
+    # ------------------------------------------------------------ call sequences
+    # sequences of sphdist/gcirc calls in one process with the same argument objects and all unit settings
+    # (mc/worlds.py call_sequences): unit vectors memoised without the unit in the key, results that are
+    # views of a module-level work array, scratch state left by the large-angle branch
+    from mc.worlds import call_sequences
+
+    def seq_pool():
+        return dict(ra=np.array([1.0, 0.5, 3.0]), dec=np.array([0.5, -0.3, 1.2]),
+                    ra2=np.array([1.1, 3.6, 0.2]), dec2=np.array([0.4, 0.3, -1.2]))
+
+    SEQ_CALLS = [("sphdist", "arr", ("deg", "deg")), ("sphdist", "arr", ("rad", "rad")), ("sphdist", "arr", ("rad", "deg")),
+                 ("sphdist", "scalar", ("deg", "deg")), ("sphdist", "scalar", ("rad", "rad")),
+                 ("sphdist", "scalar", ("deg", "rad")), ("sphdist", "antipode", ("deg", "deg")),
+                 ("gcirc", "arr"), ("gcirc", "arr2"), ("gcirc", "scalar")]
+
+    def seq_run(c, pool):
+        if c[0] == "sphdist":
+            if c[1] == "arr":
+                return [np.asarray(coords.sphdist(pool["ra"], pool["dec"], pool["ra2"], pool["dec2"], units=list(c[2])))]
+            if c[1] == "antipode":
+                return [np.asarray(coords.sphdist(10.0, 20.0, np.array([190.0, 10.0, 190.000001]), np.array([-20.0, 20.0, -20.0])))]
+            return [np.asarray(coords.sphdist(1.0, 0.5, 1.1, 0.4, units=list(c[2])))]
+        if c[1] == "arr":
+            return [np.asarray(coords.gcirc(pool["ra"], pool["dec"], pool["ra2"], pool["dec2"]))]
+        if c[1] == "arr2":
+            return [np.asarray(coords.gcirc(pool["ra2"], pool["dec2"], pool["ra"], pool["dec"] * 0.5))]
+        return [np.asarray(coords.gcirc(1.0, 0.5, 1.1, 0.4))]
+
+    def seq_mut(m, pool):
+        pool[m[0]][:] = pool[m[0]][::-1].copy()
+
+    call_sequences(ctx, "call-sequences", seq_pool, SEQ_CALLS, seq_run, lambda: [coords], depth=ctx.pick(3, 4),
+                   mutations=[("ra",)], mutate=seq_mut, nodedup_depth=3)
